@@ -75,6 +75,17 @@ func tmRun(t *testing.T, lines []string) []string {
 				timers[atoi(f[2])].Refresh()
 			case "stop":
 				timers[atoi(f[2])].Stop()
+			case "timeoutstop": // created and cancelled back to back: the waiter goroutine has not run yet
+				k := atoi(f[2])
+				timers[k] = utils.SetTimeout(cb(k), time.Duration(atoi(f[3]))*time.Millisecond)
+				timers[k].Stop()
+			case "intervalstop":
+				k := atoi(f[2])
+				timers[k] = utils.SetInterval(cb(k), time.Duration(atoi(f[3]))*time.Millisecond)
+				timers[k].Stop()
+			case "refreshstop":
+				timers[atoi(f[2])].Refresh()
+				timers[atoi(f[2])].Stop()
 			case "clearnil":
 				utils.ClearTimeout(nil)
 			case "sleep":
@@ -144,7 +155,16 @@ func famTimer(t *testing.T, r *Rec) {
 		for k := 0; k < 10; k++ {
 			var fired []string
 			nt := len(refs)
-			switch c := r.rng.IntN(9); {
+			switch c := r.rng.IntN(10); {
+			case c == 9 && nt < 3: // created and cancelled back to back
+				p := periods[r.rng.IntN(len(periods))]
+				kind := []string{"timeoutstop", "intervalstop"}[r.rng.IntN(2)]
+				lines = append(lines, fmt.Sprintf("tm %s %d %d", kind, nt, p))
+				refs[nt] = &ref{kind == "intervalstop", p, -1}
+			case c == 9 && nt > 0: // re-armed and cancelled back to back
+				i := r.rng.IntN(nt)
+				lines = append(lines, fmt.Sprintf("tm refreshstop %d", i))
+				refs[i].due = -1
 			case c == 0 && nt < 3:
 				p := periods[r.rng.IntN(len(periods))]
 				lines = append(lines, fmt.Sprintf("tm timeout %d %d", nt, p))
